@@ -20,7 +20,7 @@ TraceNext ==
      IF t.ev = "reset"
        THEN /\ enc' = NewEncoder(t.ed, t.ep, t.start) /\ dec' = NewDecoder(t.dd, t.dp, t.start \div (t.dd + t.dp))
             /\ out' = <<>> /\ em' = <<>>
-            /\ wraps' = (t.start # 0)          \* positioned runs (mid-space / near the wrap value) are not conformance-checked
+            /\ wraps' = t.nearwrap            \* runs positioned just below the real wrap value are judged by FecObs only
        ELSE IF t.ev # "op" THEN UNCHANGED <<enc, dec, wraps>> /\ out' = <<>> /\ em' = <<>>
        ELSE IF t.name = "Encode"
          THEN LET r == EncodeOp(enc, t.size, t.contiguous) IN
@@ -37,5 +37,8 @@ EmittedConforms == IsOp /\ Obs.name = "Encode" =>
    Obs.emitted = [i \in 1..Len(em) |-> [seq |-> em[i].seq, flag |-> em[i].flag, gid |-> em[i].gid, idx |-> em[i].idx, size |-> em[i].size]]
 DecoderConforms == IsOp /\ Obs.name = "Decode" =>
    (Obs.dec = ProjDec(dec) \/ ~PrintT(<<"DIFF", l - 1, "spec", ProjDec(dec), "code", Obs.dec>>))
-OutputConforms  == IsOp /\ Obs.name = "Decode" => Obs.out = out
+(* while the decoder runs a ratio other than the sender's, what a reconstruction yields depends on Reed-Solomon arithmetic *)
+(* that the model abstracts away (it is garbage except in degenerate one-data-shard cases): only the count is compared     *)
+OutputConforms  == IsOp /\ Obs.name = "Decode" =>
+                     IF Obs.dec.d = Obs.pkt.ed /\ Obs.dec.p = Obs.pkt.ep THEN Obs.out = out ELSE Len(Obs.out) = Len(out)
 =============================================================================
